@@ -196,7 +196,19 @@ func try(f func()) (p *panicErr) {
 	return nil
 }
 
-func build[T Number, A ND[T, A]](be *Backend[T, A], rootShape []int, chain []Op) (*world[T, A], error) {
+// observe runs the read-only queries on a view object before anything is derived from or written through it: a view's
+// answers must not depend on what was asked of it (or of its parent) earlier.
+func observe[T Number, A ND[T, A]](v A) {
+	try(func() {
+		v.Contiguous()
+		v.Unroll()
+		v.Maximum()
+		v.ReshapeFast(v.Shape())
+	})
+}
+
+func build[T Number, A ND[T, A]](be *Backend[T, A], rootShape []int, chain []Op, obs ...bool) (*world[T, A], error) {
+	observed := len(obs) > 0 && obs[0]
 	n := product(rootShape)
 	w := &world[T, A]{root: be.New(rootVals[T](n), rootShape)}
 	w.mroot = &mstore[T]{vals: rootVals[T](n)}
@@ -211,6 +223,9 @@ func build[T Number, A ND[T, A]](be *Backend[T, A], rootShape []int, chain []Op)
 		mcur := w.models[len(w.models)-1]
 		var next A
 		var err error
+		if observed {
+			observe[T, A](cur)
+		}
 		p := try(func() {
 			switch op.Kind {
 			case "slice":
@@ -231,6 +246,9 @@ func build[T Number, A ND[T, A]](be *Backend[T, A], rootShape []int, chain []Op)
 		} else {
 			w.models = append(w.models, mcur.reshape(op.Shape))
 		}
+	}
+	if observed {
+		observe[T, A](w.views[len(w.views)-1])
 	}
 	return w, nil
 }
@@ -285,6 +303,7 @@ type Stats struct {
 	BulkOps                       int64
 	StatesPerDepth                []int
 	UnexploredSuccessors          int
+	StateChecks                   int // fresh + queried-first passes
 }
 
 type Options struct {
@@ -304,6 +323,7 @@ type explorer[T Number, A ND[T, A]] struct {
 	opt   Options
 	st    Stats
 	fails map[string]*Failure
+	obs   bool // views answer the read-only queries before use
 }
 
 func (e *explorer[T, A]) fail(clause string, chain []Op, what string, detail map[string]interface{}) {
@@ -315,6 +335,15 @@ func (e *explorer[T, A]) fail(clause string, chain []Op, what string, detail map
 		detail = map[string]interface{}{}
 	}
 	detail["element_type"], detail["backend"], detail["root_shape"], detail["chain"] = e.be.Type, e.be.Name, e.root, chainStrings(chain)
+	if e.obs {
+		clause += "/views-queried-first"
+		sig = fmt.Sprintf("%s/%s/%s-backed/%s", e.opt.Prop, clause, e.be.Name, chainClass(chain))
+		what = "(every view first answered Contiguous/Unroll/Maximum/ReshapeFast) " + what
+		detail["views_queried_first"] = true
+		if _, ok := e.fails[sig]; ok {
+			return
+		}
+	}
 	e.fails[sig] = &Failure{Sig: sig, What: fmt.Sprintf("%s %s-backed root %v, %s: %s", e.be.Type, e.be.Name, e.root, strings.Join(chainStrings(chain), "."), what), Detail: detail}
 }
 
